@@ -56,6 +56,12 @@ End Stats.
 Section Metric.
 Context {F : Type} {NF : Num F}.
 Local Open Scope num_scope.
+Local Notation vec3 := (@LieGroup.vec3 F).
+Local Notation mat3 := (@LieGroup.mat3 F).
+Local Notation mat4 := (@LieGroup.mat4 F).
+Local Notation quat := (@LieGroup.quat F).
+Local Notation se3elt := (@LieGroup.se3elt F).
+Local Notation sim3elt := (@LieGroup.sim3elt F).
 Variable sqrtF : F -> F.
 Variable angleF : mat3 -> F.
 Variable rad2degF : F -> F.
@@ -249,6 +255,12 @@ End Metric.
 Section Angle.
 Context {F : Type} {NF : Num F} {TF : Trans F}.
 Local Open Scope num_scope.
+Local Notation vec3 := (@LieGroup.vec3 F).
+Local Notation mat3 := (@LieGroup.mat3 F).
+Local Notation mat4 := (@LieGroup.mat4 F).
+Local Notation quat := (@LieGroup.quat F).
+Local Notation se3elt := (@LieGroup.se3elt F).
+Local Notation sim3elt := (@LieGroup.sim3elt F).
 Variable eps : F.
 Variable mat2SO3 : mat3 -> quat.     (* pp.mat2SO3(M, check=False): oracle, see Proofs/Metric.v *)
 Definition angle_of (M : mat3) : F := vnorm (SO3_log eps (mat2SO3 M)).
